@@ -8,12 +8,13 @@ use molt::types::*;
 
 pub const SYNTAX: [&str; 18] = ["{", "}", "[", "]", "\"", "\\", "$", "(", ")", ";", "#", "*", " ", "\n", "a", "1", "x", "-"];
 
-pub const HOSTILE: [&str; 48] = [
+pub const HOSTILE: [&str; 58] = [
     "catch {return -level -1 x} r o; set o", "catch {return -level 18446744073709551616 -code 7 x} r o; list $r $o",
     "a\u{a0}b", "\u{2003}", "x\u{85}", "\u{3000}1", "set x\u{a0}1", "a\u{2028}b",
     "", " ", "a", "0", "1", "-1", "9223372036854775807", "-9223372036854775808", "9223372036854775808", "0x", "0x10",
     "--5", "+-5", "1e", ".", "1.5", "Inf", "NaN", "\\777", "\\x", "\\u12345", "\"", "\"a", "{", "}", "{a", "a}", "{a}b",
     "$a(", "${a", "[", "]", "é", "İstanbul", "😀", "a b", "a\nb", "#", "{*}", "\\",
+    "a(\u{e9}", "total(\u{20ac}", "x(\u{e9})", "a(\u{e9})b", "${a(\u{e9}}", "$a(\u{e9}", "\u{e9}(\u{e9}", "a(\u{a0}", "a(1)\u{1f600}", "(\u{e9}",
 ];
 
 /// nesting constructs for the depth ladder
